@@ -831,7 +831,8 @@ class Deepen(Suite):
         return None
 
     def finding_class(self, c, reason, reply):
-        if c["shape"] == "merge" and ("shallow boundary differs" in reason or "commits reachable" in reason):
+        # a merge, or two wanted tips one of which is an ancestor of the other: the path-measured depth of getShallowCommits
+        if c["shape"] in ("merge", "side") and ("shallow boundary differs" in reason or "commits reachable" in reason):
             return "shallow-boundary"
         if c["proto"] == 0 and c["client"] == "gogit" and ("not connected" in reason or "commits reachable" in reason
                                                            or "shallow boundary differs" in reason):
